@@ -17,7 +17,7 @@
    the same input reproduces on the implementation); the theorems are proved restricted to
    [no_dir_missing], the exact complement of the finding's signature. *)
 From Coq Require Import NArith List Bool.
-From DvcData Require Import Base.Val Model.Transfer Proofs.TransferBase Proofs.TransferStatus Proofs.TransferLoop Proofs.TransferProofs.
+From DvcData Require Import Base.Val Model.Transfer Gen.TransferGen Proofs.TransferBase Proofs.TransferStatus Proofs.TransferLoop Proofs.TransferProofs Proofs.TransferGenTie.
 Import ListNotations.
 Open Scope N_scope.
 
@@ -104,3 +104,34 @@ Theorem C11_src_untouched : forall i n,
   w_src (killed_world i n) = t_src i /\ w_src (final_world i) = t_src i.
 Proof. exact src_untouched. Qed.
 Print Assumptions C11_src_untouched.
+
+(* ---- the tie to the source text (Gen/TransferGen.v, regenerated on every run from
+   hashfile/transfer.py and status.py by translator/transferunit.py) ---- *)
+(* transfer(): status, then validate_status, then the early return, then _do_transfer(new, missing) *)
+Theorem C11_source_phases : g_phases = [PStatus; PValidate; PEarlyReturn; PDoTransfer] /\
+                            g_do_transfer_args = (SNew, SMissing).
+Proof. exact gen_phases_ok. Qed.
+Print Assumptions C11_source_phases.
+
+Theorem C11_source_result : forall i st tr fl,
+  o_status (transfer i) = Some st -> o_outcome (transfer i) = TOk tr fl -> c_new st <> [] ->
+  (tr, fl) = g_result (c_new st) fl.
+Proof. exact gen_result_ok. Qed.
+Print Assumptions C11_source_result.
+
+Theorem C11_source_compare_status : forall i st dix six dex dmiss dix',
+  compare_status i = inr (st, dix, six) ->
+  status_ix (t_dnoop i) (t_parse i) (t_dst i) (status_cache i) (t_dix i) (t_shallow i) (t_req i) = inr (dex, dmiss, dix') ->
+  if g_ask_source false dmiss
+  then exists sex smiss six',
+         status_ix (t_snoop i) (t_parse i) (t_src i) (t_src i) (t_six i) (t_shallow i) (t_req i) = inr (sex, smiss, six') /\
+         st = g_cmp sex smiss dex dmiss
+  else st = g_cmp dex [] dex dmiss.
+Proof. exact gen_cmp_ok. Qed.
+Print Assumptions C11_source_compare_status.
+
+Theorem C11_source_error_counts :
+  (forall is_permission_error, g_error_counts is_permission_error false = true) /\
+  g_error_counts true true = false /\ g_error_counts false true = true.
+Proof. split; [exact gen_error_single_writer|exact gen_error_exemption]. Qed.
+Print Assumptions C11_source_error_counts.
